@@ -59,6 +59,27 @@ func gen(seed int64, n int, tier string) []interface{} {
 			continue
 		}
 		p := javaproj.Gen(r, k%2 == 0)
+		// shadow: a class that extends a type imported from another package while its own package declares a type of the
+		// same simple name (the single-type import wins in Java)
+		if r.Intn(5) == 0 {
+			for _, f := range p.Files {
+				if !selected(f) || f.Unit.Ext == "" || f.Unit.Extq == f.Pkg+"."+f.Unit.Ext {
+					continue
+				}
+				clash := false
+				for _, g := range p.Files {
+					if g.Pkg == f.Pkg && g.Unit.Name == f.Unit.Ext {
+						clash = true
+					}
+				}
+				if !clash {
+					sh := javagen.File{Id: "shadow", PathKind: f.PathKind, Dirs: f.Dirs, Pkg: f.Pkg}
+					sh.Unit = javagen.Unit{Kind: "class", Name: f.Unit.Ext}
+					p.Files = append(p.Files, sh)
+				}
+				break
+			}
+		}
 		c := Case{Case: fmt.Sprintf("rand-%d-%d", seed, k), Files: p.Files, Layout: p.Layout, Runs: [][]int{}}
 		if k%7 == 1 {
 			c.Via = "cli"
